@@ -173,7 +173,10 @@ impl LookaheadDFA {
             RefCell::new(BTreeMap::new());
         // Starting state is per definition always 0!
         state_mapping.borrow_mut().insert(0, 0);
-        let result_union = RefCell::new(self);
+        let mut this = self;
+        // The union needs as many lookahead tokens as the deeper one of both automata.
+        this.k = std::cmp::max(this.k, other.k);
+        let result_union = RefCell::new(this);
 
         loop {
             let mut changed = false;
